@@ -142,6 +142,13 @@ def run_grid(s, J, op, plan, degenerate, results, counts):
         res = s.call_solver(knobs, op.get("start", "cold"), op.get("w0"), op.get("faults"),
                             op.get("storage", plan.get("storage", "F")), rng_key=grid_key)
         res["faults"] = op.get("faults")
+        if plan.get("tightened") and res.get("w_start") is not None:
+            try:
+                pr0 = J.problem(res["fi"])
+                res["infeasible_start"] = bool(pr0.pen.has_constraint
+                                               and not pr0.pen.feasible(pr0.split(res["w_start"])[0]))
+            except Exception:
+                res["infeasible_start"] = False
         ctx = dict(warm=res["start"] in ("buffers", "point"), degenerate=degenerate,
                    check=plan["check"])
         out.extend(J.judge_result(res, ctx))
@@ -406,7 +413,7 @@ def run_quiesce(s, J, op, plan, degenerate, results, counts):
                         detail=dict(stop_crit=res["stop_crit"], tol=tol, knobs=knobs),
                         feat=J.feat(res, dict(n_outer=(res.get("seam") or {}).get("outer")))))
     # ---- C02: reference optimum
-    if op.get("optimum", True) and claimed and pr.pen.convex and pr.loss.name not in ("Pinball",):
+    if op.get("optimum", True) and claimed and pr.pen.convex:
         out.extend(judge_optimum(s, J, pr, res, w, b, tol, warm, op))
     # ---- C16: critical strength
     if op.get("critical", False):
@@ -466,8 +473,32 @@ def objective_margin(pr, w, b, dist, tol, crit, exact, Pref):
         if not np.isfinite(G):
             G = 1e6 * (1 + pr.pen.slope_scale())
         return tol * ((Lsum + Lmax + 1.0) * (dist + nunits * tol) + nunits * G) * (1 + REL) + rounding
+    if crit == "pd_fixpoint":
+        return pd_margin(pr, dist, tol) * (1 + REL) + rounding
     kappa = 50.0 * (1.0 + Lmax * pr.p)
     return kappa * tol * dist * (1 + REL) + 1e-7 * (1 + abs(Pref)) + rounding
+
+
+def pd_margin(pr, dist, tol):
+    """Primal-dual fixed-point criterion of PDCD_WS (steps tau_j = 1 / ||X_j||, sigma = 1 / ||X||_2;
+    loss F Lipschitz, dual iterates in its bounded dual domain).  With u = prox image of w
+    (|w - u|_inf <= tol) and z' = dual prox image (|z - z'|_inf <= tol):
+        -X'z + e in d pen(u), |e_j| <= tol ||X_j||;   z' in dF(Xw + d), |d|_inf <= tol ||X||_2.
+    Adding the two subgradient inequalities at the optimum w* gives
+        P(w) - P* <= tol [ 2 N ||X||_2 + sum_j a_j + sum_j ||X_j||_1
+                           + max_j ||X_j||_1 dist + max_j ||X_j||_2 (dist + p tol) ]
+    with N = n for the pinball loss (|z|_inf <= 1), sqrt(n) for the square-root loss
+    (|z|_2 <= 1) and a_j the l1 slopes."""
+    X = pr.X
+    n, p = X.shape
+    N = float(n) if pr.loss.name == "Pinball" else float(np.sqrt(n))
+    nx2 = float(np.linalg.norm(X, 2)) if X.size else 0.0
+    col1 = np.abs(X).sum(axis=0)
+    col2 = np.sqrt((X ** 2).sum(axis=0))
+    slopes = float(sum(pr.pen._a(j) for j in range(p))) if hasattr(pr.pen, "_a") else \
+        p * pr.pen.slope_scale()
+    return tol * (2 * N * nx2 + slopes + float(col1.sum()) + float(col1.max(initial=0.0)) * dist
+                  + float(col2.max(initial=0.0)) * (dist + p * tol))
 
 
 def judge_optimum(s, J, pr, res, w, b, tol, warm, op):
